@@ -151,6 +151,8 @@ var c04GhostExpiry = map[string]time.Time{}
 
 func c04Gen(r *rand.Rand, tier string) []Case {
 	out := c04GenBody(r, tier)
+	// fixed case: a deny-list grant and the barred validator named in both spellings of its address
+	out = append(out, Case{"sdeny # val=0", "sdeny # val=1"})
 	// fixed case: the signer undelegates, grants the contract a limited allowance for cancelling unbonding, and the contract
 	// cancels in three steps — the last one beyond what is left
 	out = append(out, Case{
@@ -489,6 +491,41 @@ func c04Exec(c Case) (outs []string, fails []Failure, tags []string) {
 				out = st + " " + post
 				tags = append(tags, "allow-"+f[1]+"-"+st)
 				checkThird()
+			case "sdeny":
+				// a grant made through the authz module with a DENY list (one validator barred, everything else allowed, no
+				// limit), then the contract delegates the signer's coins to the barred validator — spelled in lower case and
+				// in upper case (the same validator).  Monitor only: the model's grants carry allow lists.
+				out = "skip"
+				val := vmIdx(kv["val"]) % len(c04Vals)
+				va, e := sdk.ValAddressFromBech32(c04Vals[val])
+				if e != nil {
+					panic(e)
+				}
+				sa, e := stakingtypes.NewStakeAuthorization(nil, []sdk.ValAddress{va}, stakingtypes.AuthorizationType_AUTHORIZATION_TYPE_DELEGATE, nil)
+				if e != nil {
+					panic(e)
+				}
+				exp := nw.GetContext().BlockTime().Add(365 * 24 * time.Hour)
+				if e := app.AuthzKeeper.SaveGrant(nw.GetContext(), puppetAddr.Bytes(), kr.GetKey(puppetOrigin).AccAddr, sa, &exp); e != nil {
+					panic(e)
+				}
+				delete(c04Ghost, "delegate")
+				c04GhostExpiry["delegate"] = exp
+				tags = append(tags, "deny-list-grant")
+				for _, spelling := range []string{c04Vals[val], strings.ToUpper(c04Vals[val])} {
+					b0 := bonded(kr.GetKey(puppetOrigin).Addr)
+					in, err := sabi.Pack("delegate", kr.GetKey(puppetOrigin).Addr, spelling, big.NewInt(77))
+					if err != nil {
+						panic(err)
+					}
+					puppetRun(big.NewInt(0), puppetCall(0, stk, big.NewInt(0), in), 12_000_000)
+					if b1 := bonded(kr.GetKey(puppetOrigin).Addr); b1.Cmp(b0) != 0 {
+						fl("C04:validator-outside-grant:denied-validator", fmt.Sprintf("the signer's grant to the contract bars validator %s; the contract's delegate naming it as %q went through (the signer's stake changed by %s)", c04Vals[val], spelling, new(big.Int).Sub(b1, b0)))
+					}
+				}
+				// (the deny-list grant is removed again: the cases that follow use allow-list grants)
+				_ = app.AuthzKeeper.DeleteGrant(nw.GetContext(), puppetAddr.Bytes(), kr.GetKey(puppetOrigin).AccAddr, stakingpc.DelegateMsg)
+				delete(c04GhostExpiry, "delegate")
 			case "tick":
 				// time passes (days)
 				out = "skip"
